@@ -210,8 +210,12 @@ func (p *pkgInfo) emitVarTables(w *bytes.Buffer) {
 				if isMap {
 					kind = "map literal: keys mapped to true, sorted"
 				}
+				lname := leanName(vs.Names[0].Name)
+				if isMap {
+					lname += "Keys" // a package's own facts may define the map as a function under the plain name
+				}
 				out = append(out, kv{vs.Names[0].Name, fmt.Sprintf("/-- Go package-level `var %s` (%s) -/\ndef %s : List %s := [%s]\n",
-					vs.Names[0].Name, kind, leanName(vs.Names[0].Name), ty, strings.Join(vals, ", "))})
+					vs.Names[0].Name, kind, lname, ty, strings.Join(vals, ", "))})
 			}
 		}
 	}
